@@ -74,6 +74,8 @@ pub struct ClusterWorld {
     pub mons: Vec<crate::nodesys::Mon>,
     pub judges: Vec<PoolH>,
     pub own_vote_violations: Vec<(String, String)>,
+    /// blocks each real node's pool asked the repair service for
+    pub repair_requested: Vec<BTreeSet<BlockId>>,
     /// finalization events of each real node's pool
     pub fins: Vec<Vec<alpenglow::consensus::verif::VerifFinalization>>,
 }
@@ -221,6 +223,7 @@ impl ClusterSys {
             },
         };
         w.fins[n].extend(o.fins);
+        w.repair_requested[n].extend(o.repairs);
         for e in o.events {
             w.mons[n].observe_pool_event(&e);
             w.cores[n].q.push_back(e);
@@ -243,6 +246,7 @@ impl ClusterSys {
             out_of_scope: false,
             msg_cap: self.max_msgs,
             fins: vec![Vec::new(); h],
+            repair_requested: vec![BTreeSet::new(); h],
             mons: (0..h).map(|_| crate::nodesys::Mon::default()).collect(),
             judges: self.nodes.iter().map(|_| PoolH::new(&self.epoch, self.byz)).collect(),
             own_vote_violations: Vec::new(),
@@ -262,6 +266,7 @@ impl ClusterSys {
         self.collect(w, i);
         let o = w.cores[i].pool.add_block(blk_id(b), blk_id(p));
         w.fins[i].extend(o.fins);
+        w.repair_requested[i].extend(o.repairs);
         for e in o.events {
             w.mons[i].observe_pool_event(&e);
             w.cores[i].q.push_back(e);
@@ -299,7 +304,11 @@ impl ClusterSys {
             for k in 0..self.alpha.blocks.len() {
                 if (0..h).any(|i| w.blocks_delivered[i][k]) {
                     for i in 0..h {
-                        if !w.blocks_delivered[i][k] {
+                        // order (a): dissemination eventually reaches everybody; order (b): the
+                        // (Byzantine) leader sends nothing more, a node obtains a block it lacks
+                        // only through the repair its own pool asked for
+                        let wanted = !timeouts_first || w.repair_requested[i].contains(&blk_id(self.alpha.blocks[k].0));
+                        if !w.blocks_delivered[i][k] && wanted {
                             self.deliver_block(w, i, k);
                             progress = true;
                         }
@@ -549,6 +558,7 @@ impl Sys for ClusterSys {
                             let vv = self.factory.vote(&self.alpha.byz_votes[*k]);
                             let o = w.cores[*i].pool.add_vote(vv).1;
                             w.fins[*i].extend(o.fins);
+                            w.repair_requested[*i].extend(o.repairs);
                             for e in o.events {
                                 w.mons[*i].observe_pool_event(&e);
                                 w.cores[*i].q.push_back(e);
@@ -591,6 +601,7 @@ impl Sys for ClusterSys {
                 let vv = self.factory.vote(&self.alpha.byz_votes[k]);
                 let o = w.cores[i].pool.add_vote(vv).1;
                 w.fins[i].extend(o.fins);
+                w.repair_requested[i].extend(o.repairs);
                 for e in o.events {
                     w.mons[i].observe_pool_event(&e);
                     w.cores[i].q.push_back(e);
